@@ -275,6 +275,14 @@ static void endRun(Context * root)
 static void doOp(const std::vector<std::string>& f)
 {
   const std::string& op = f[0];
+  if (op == "reset-skip") { g_skip = false; reply("ok"); return; }
+  if (op == "vmodmark")
+  {
+    // phase marker in the verification module's event log
+    const char * lp = getenv("VMOD_LOG");
+    if (lp) { FILE * lf = fopen(lp, "a"); if (lf) { fputs("MARK\n", lf); fclose(lf); } }
+    reply("ok"); return;
+  }
   if (g_skip) { fputs("R skipped\n", stdout); return; }
   if (op == "require")
   {
